@@ -168,13 +168,13 @@ fn check_densified(acc: &mut Acc, idx: usize, what: &str, orig: &[Coord<f64>], d
 
 pub fn run(mut run: Run) -> i32 {
     let quick = run.ctx.quick();
-    run.rule = "every vertex sequence of length 1..5 (thorough 6) over the 3x3 lattice with repetition (zero-length segments, repeated vertices) as LineString, every ordered pair incl. equal points as Line, x ratios {-1,0,1/8..1,1+ulp,2} and every cumulative vertex ratio: \
+    run.rule = "every vertex sequence of length 1..6 (thorough 7) over the 3x3 lattice with repetition (zero-length segments, repeated vertices) as LineString, every ordered pair incl. equal points as Line, x ratios {-1,0,1/8..1,1+ulp,2} and every cumulative vertex ratio: \
         ratio/distance forms from start and end, the deprecated line_interpolate_point, line_locate_point on simple lines; densify with max in {0.1,0.5,1, each segment length, total, 10 total} for LineString/Line/Polygon/Rect/Triangle; \
         oracle: arc-length walk in f64 (1e-12 relative); distinct = (type, vertex count, zero-length segments, simple)"
         .into();
     run.assumptions = vec!["tolerance 1e-12 relative to the line's extent; locate round trip 1e-9".into()];
     let g3 = grid(3);
-    let kmax = if quick { 5 } else { 6 };
+    let kmax = if quick { 6 } else { 7 };
     for k in 1..=kmax {
         let n = 9usize.pow(k as u32);
         let g3 = g3.clone();
@@ -194,7 +194,7 @@ pub fn run(mut run: Run) -> i32 {
         }
     });
     // densify
-    let dk = if quick { 4 } else { 5 };
+    let dk = if quick { 5 } else { 6 };
     for k in 2..=dk {
         let n = 9usize.pow(k as u32);
         let g3 = g3.clone();
